@@ -16,7 +16,7 @@ from harness import common
 from harness import nodelib as NL
 from harness import rulelib as RL
 from harness.common import cstr, copt, clist, cpair
-from harness.c15 import node, walk, size, reid, ids_of
+from harness.c15 import node, walk, size, reid, ids_of, fresh_strs
 
 HEADER = "From MP Require Import Common.Base Common.Tree Model.Prune Model.PruneRun Model.Expand Model.ExpandRun.\n"
 
@@ -56,6 +56,8 @@ def party(rng, name, kind, pid=None, target=None, rich=True):
         attrs.append(["id", pid])
         if rng.random() < 0.3:
             attrs.append(["scope", "document"])
+        if rng.random() < 0.15:
+            attrs.append(["system", ""])
     if kind == "ref":
         ref = node("references", target, [["system", "sys"]] if rng.random() < 0.2 else [])
         kids = [ref]
@@ -113,6 +115,8 @@ def gen_documents(ctx):
                     roled = rng.random() < 0.4
                     names_pool = ROLED if roled else PLAIN
                     srcs = [f"p{j}" for j in range(m)]
+                    if rng.random() < 0.15:
+                        srcs[0] = ""                       # falsy but legal id value / reference content
                     parties, si = [], 0
                     src_names = {}
                     for a in arr:
@@ -175,6 +179,11 @@ def extra_documents(ctx):
     yield {"special": "leaf-source"}, document(rng, [node("creator", None, [], [node("organizationName", "O", [["id", "leaf"]])]),
                                                    node("contact", None, [], [node("references", "leaf")])])
     yield {"special": "root-named-references"}, node("references", "x", [], [party(rng, "creator", "src", "a"), node("contact", None, [], [node("references", "a")])])
+    big = node("creator", None, [["id", "big"]], [node("organizationName", "O")] + [node("phone", "555-%d" % i) for i in range(300)])
+    yield {"special": "source-with-300-children"}, document(rng, [big, node("contact", None, [], [node("references", "big")]),
+                                                                 node("metadataProvider", None, [], [node("references", "big")])])
+    many = [party(rng, "creator", "src", "one", rich=False)] + [node("contact", None, [], [node("references", "one")]) for _ in range(270)]
+    yield {"special": "270-references-to-one-id"}, document(rng, many)
     yield {"special": "no-references"}, document(rng, [party(rng, "creator", "plain"), party(rng, "contact", "src", "c")])
     yield {"special": "empty-id-value"}, document(rng, [party(rng, "creator", "src", ""), node("contact", None, [], [node("references", "")])])
     yield {"special": "none-content"}, document(rng, [party(rng, "creator", "src", "a"), node("contact", None, [], [node("references", None)])])
@@ -316,7 +325,7 @@ def run_impl(t):
     from metapype.eml.exceptions import MetapypeRuleError
     from metapype.model.node import Node
     Node.store.clear()
-    root = NL.build(t, attach=False)
+    root = NL.build(fresh_strs(t), attach=False)
     o = {"store_before": list(Node.store.keys())}
     try:
         validate.tree(root)
@@ -355,6 +364,9 @@ def run_impl(t):
     old = set(ids_of(t))
     new_nodes = [n for n in _nodes(root) if n.id not in old]
     o["links_ok"] = all(c.parent is n for n in _nodes(root) for c in n.children)
+    import gc
+    gc.collect()
+    o["registry_objects_ok"] = all(Node.store.get(n.id) is n for n in _nodes(root))
     # independence, both directions
     src_ids = set()
     for n in _nodes(root):
@@ -367,7 +379,7 @@ def run_impl(t):
     o["sources_after_editing_copies"] = fields_by_id(root, src_ids) == s0
     Node.store.clear()
     # the other direction on a second run
-    root2 = NL.build(t, attach=False)
+    root2 = NL.build(fresh_strs(t), attach=False)
     references.expand(root2)
     new_ids2 = {n.id for n in _nodes(root2)} - old
     c0 = fields_by_id(root2, new_ids2)
@@ -436,6 +448,8 @@ def statement_violations(t, o):
         v.append(("references-left", "a references node is left after expansion"))
     if not o["links_ok"]:
         v.append(("links", "a child's parent link does not point to the node listing it"))
+    if not o.get("registry_objects_ok", True):
+        v.append(("registry-object", "Node.store does not map the id of every node of the result to that node"))
     if not o["sources_after_editing_copies"]:
         v.append(("not-independent", "editing the copies changed a referenced element"))
     if not o["copies_after_editing_sources"]:
@@ -462,15 +476,33 @@ def find_live(root, nid):
     return None
 
 
-def apply_edit(root, e):
+def apply_edit(root, e, removed=None):
     from metapype.model.node import Node
     n = find_live(root, e["id"])
     if n is None:
         return
     op = e["op"]
     if op == "add":
-        c = NL.build(e["subtree"], attach=False)
+        c = NL.build(fresh_strs(e["subtree"]), attach=False)
         n.add_child(c, e.get("index"))
+    elif op == "add_direct":
+        # a legal edit through the exposed properties: the children list and the parent link
+        c = NL.build(fresh_strs(e["subtree"]), attach=False)
+        i = e.get("index")
+        if i is None:
+            n.children.append(c)
+        else:
+            n.children.insert(i, c)
+        c.parent = n
+    elif op == "add_copy_of_removed":
+        # a node that left the registry is copied; the copy (new ids, registered) joins the tree
+        if removed:
+            c = removed[e["k"] % len(removed)].copy()
+            n.add_child(c)
+    elif op == "attr_direct":
+        n.attributes[e["k"]] = e["v"]
+    elif op == "nsmap_direct":
+        n.nsmap[e["k"]] = e["v"]
     elif op == "remove":
         if n.parent is not None:
             n.parent.remove_child(n)
@@ -518,13 +550,13 @@ def choose_edits(rng, snap):
         return "none", []
 
     def add(sub, index=None):
-        e = {"op": "add", "id": host["id"], "subtree": hid_tree(sub)}
+        e = {"op": rng.choice(["add", "add", "add_direct"]), "id": host["id"], "subtree": hid_tree(sub)}
         if index is not None:
             e["index"] = index
         return e
     removable = [v for v, n in idmap.items() if n is not snap and n is not host]
     dangling = [r["content"] for r in refs if r["content"] not in idmap and isinstance(r["content"], str)]
-    opts = ["new-ref", "dup-id", "retarget"]
+    opts = ["new-ref", "dup-id", "retarget", "copy-of-removed-reference", "direct-mutation"]
     if dangling:
         opts += ["fix-dangling"] * 3
     if removable:
@@ -538,6 +570,17 @@ def choose_edits(rng, snap):
         name = name or ref_name
         kids = [node("references", v)] + ([node("role", "r")] if name in ROLED else [])
         return node(name, None, [], kids)
+    if tag == "copy-of-removed-reference":
+        return tag, [{"op": "add_copy_of_removed", "id": host["id"], "k": rng.randint(0, 7)}]
+    if tag == "direct-mutation":
+        # id attribute / namespace written straight into the exposed dicts, then referred to
+        cand = [n for n, p, _ in walk(host) if p is not None and n["name"] in PLAIN and not any(k == "id" for k, _ in n["attrs"])
+                and not any(x["name"] == "references" for x, _, _ in walk(n))]
+        v = rng.choice(["", "direct%d" % rng.randint(0, 9)])
+        es = [{"op": "nsmap_direct", "id": host["id"], "k": "zz", "v": "urn:zz"}]
+        if cand:
+            es.append({"op": "attr_direct", "id": rng.choice(cand)["id"], "k": "id", "v": v})
+        return tag, es + [add(ref_party(v))]
     if tag == "fix-dangling":
         v = rng.choice(dangling)
         return tag, [add(party(rng, rng.choice(PLAIN), "src", v))]
@@ -549,7 +592,7 @@ def choose_edits(rng, snap):
         extra = [add(ref_party(v))] if rng.random() < 0.5 else []
         return tag, [add(party(rng, rng.choice(PLAIN), "src", v))] + extra
     if tag == "retarget":
-        v = "new%d" % rng.randint(0, 99)
+        v = rng.choice(["new%d" % rng.randint(0, 99), ""])
         return tag, [add(party(rng, rng.choice(PLAIN + ROLED), "src", v)), add(ref_party(v, rng.choice(PLAIN + ROLED)), 1)]
     if tag == "dangling-ref":
         return tag, [add(ref_party("nowhere"))]
@@ -589,7 +632,7 @@ def fresh_expand(snap):
     saved = dict(Node.store)
     Node.store.clear()
     try:
-        root = NL.build(snap, attach=False)
+        root = NL.build(fresh_strs(snap), attach=False)
         try:
             references.expand(root)
             exc = None
@@ -606,8 +649,9 @@ def run_history(t, steps_edits=None, rng=None, max_steps=3):
     from metapype.eml import references
     from metapype.model.node import Node
     Node.store.clear()
-    root = NL.build(t, attach=False)
+    root = NL.build(fresh_strs(t), attach=False)
     v, log = [], []
+    removed = []
     for step in range(max_steps):
         snap = NL.snapshot(root)
         exp = spec_expand(snap)
@@ -615,11 +659,14 @@ def run_history(t, steps_edits=None, rng=None, max_steps=3):
             break
         old = set(ids_of(snap))
         before = NL.deep_state([root])
+        going = [n for n in _nodes(root) if n.name == "references" and n is not root]
         try:
             references.expand(root)
             exc = None
         except Exception as e:  # noqa
             exc = type(e).__name__
+        if exc is None and going:
+            removed = going
         after = NL.snapshot(root)
         fexc, fafter = fresh_expand(snap)
         log.append({"step": step, "expected": "ValueError" if exp == "ValueError" else "expanded", "observed": exc or "expanded",
@@ -654,7 +701,7 @@ def run_history(t, steps_edits=None, rng=None, max_steps=3):
             if not edits:
                 break
         for e in edits:
-            apply_edit(root, e)
+            apply_edit(root, e, removed)
         log[-1]["then"] = [tag, edits]
     Node.store.clear()
     return v, log
